@@ -97,15 +97,20 @@ def cases(tier: str) -> list[tuple[str, str, int, int]]:
         ('s2q random', 'line cz', 1, 0), ('s3q ghz', 'default', 1, 0),
         ('sys2q 1 pairs', 'default', 1, 0), ('sys2q 2 pairs', 'default', 1, 0),
         ('sys2q 4 pairs', 'default', 1, 0),
+        # the two known findings (they fail at once)
+        ('s1qutrit random', 'default', 1, 0), ('s1q random', 'default', 2, 2),
     ]
     if tier == 'quick':
         return quick
     more = []
     for lvl in (2, 3, 4):
-        for nm in ('u1q haar', 'u2q haar', 'u2q diagonal', 's2q random',
-                   's3q w', 'sys2q 2 pairs', 'u1qutrit haar',
-                   's1qutrit random'):
-            more.append((nm, 'default', lvl, lvl))
+        for nm in ('u1q haar', 'u2q haar', 'u2q diagonal', 'sys2q 2 pairs',
+                   'u1qutrit haar', 's1q random'):
+            if (nm, lvl) != ('s1q random', 2):
+                more.append((nm, 'default', lvl, lvl))
+    # qubit states of 2-3 qubits at levels 2-4 take tens of minutes each in
+    # LEAP's instantiation with the workflow's tolerances: not run
+    more += [('sys2q 4 pairs', 'default', 4, 0)]
     more += [('u3q toffoli', 'default', 1, 0), ('u3q diagonal', 'default', 1, 0),
              ('s3q w', 'line cz', 1, 0), ('u2q haar', 'line cz', 3, 1)]
     return quick + more
